@@ -170,6 +170,25 @@ class G:
                 return [A("with"), [[v, c(r.randrange(0, 4))]], body]
             wrap = [[A("macro"), "m0", [[v]], body]] + [[A("callmacro"), "m0", [c(i)]] for i in (1, 2, 3)] + [[A("out"), n(v)]]
             return [A("if"), [[c(True), wrap]], []]
+        if not leaf and r.random() < 0.04:
+            # a scope that binds nothing of its own (`{% with %}`, a loop/filter block/set block whose own names are others)
+            # still confines the assignments made inside it
+            v = self.var()
+            other = self.pick([x for x in VARS if x != v])
+            inner = [[A("set"), v, self.val()], [A("out"), n(v)]]
+            kind = self.pick(["with0", "with0", "for", "filterblock", "setblock", "with-other"])
+            if kind == "with0":
+                scope = [[A("with"), [], inner]]
+            elif kind == "for":
+                scope = [[A("for"), other, [A("list"), c(1)], A("_"), inner, []]]
+            elif kind == "filterblock":
+                scope = [[A("filterblock"), "upper", inner]]
+            elif kind == "setblock":
+                scope = [[A("setblock"), other, inner], [A("out"), n(other)]]
+            else:
+                scope = [[A("with"), [[other, c(1)]], inner]]
+            pre = [[A("set"), v, cs("outer")]] if r.random() < 0.5 else []
+            return [A("if"), [[c(True), pre + scope + [[A("text"), "|"], [A("out"), n(v)]]]], []]
         if k < 0.22 or leaf and k < 0.5:
             return [A("out"), self.val()]
         if k < 0.27:
@@ -188,7 +207,8 @@ class G:
             els = self.stmts(depth - 1, in_loop, in_macro, 2) if r.random() < 0.35 else []
             return [A("for"), self.var(), self.iterable(), filt, body, els]
         if k < 0.76:
-            return [A("with"), [[self.var(), self.val()] for _ in range(r.randrange(1, 3))], self.stmts(depth - 1, False, in_macro, 3)]
+            # `{% with %}` without bindings is still a scope of its own
+            return [A("with"), [[self.var(), self.val()] for _ in range(r.randrange(0, 3))], self.stmts(depth - 1, False, in_macro, 3)]
         if k < 0.81:
             return [A("setblock"), self.var(), self.stmts(depth - 1, False, in_macro, 3)]
         if k < 0.85:
